@@ -739,6 +739,8 @@ def explore(run):
     shards = []
     values = ("p", "q", "")
     values2 = ("x:y", "0", "a\r\nb")
+    # lengths: a one-line list of 11 entries (about 150 characters), a value longer than 8192 characters
+    values3 = (X.comma_list(11), "k" * 9000, "")
     classes = {"SMSimfile": SMSimfile, "SSCSimfile": SSCSimfile, "SSCChart": SSCChart}
     for okind, cls in classes.items():
         for attr, std in sorted(known_properties(cls).items()):
@@ -749,6 +751,8 @@ def explore(run):
             shards.append(("prop", okind, attr, std, alias, values))
             if run.thorough() or alias:
                 shards.append(("prop", okind, attr, std, alias, values2))
+            if (okind, attr) in (("SMSimfile", "stops"), ("SSCSimfile", "bpms"), ("SSCChart", "credit"), ("SSCChart", "notes")) or (run.thorough() and alias):
+                shards.append(("prop", okind, attr, std, alias, values3 if okind == "SSCChart" else (values3[0], X.comma_list(90), "")))
             # transition tour on one live object: every aliased property, and (quick) one plain property per class
             if alias or run.thorough() or attr in ("title", "stepstype", "credit"):
                 shards.append(("tour", okind, attr, std, alias, values))
